@@ -22,8 +22,9 @@ PROPS = {
                  'the byte-stream scanner (bufio.Scanner + ios.NewScannerByDelim3, 128-byte initial buffer, growth) is modelled as the pure function scan_tokens (cut after every unescaped segment delimiter, drop what follows the last one) and ignore_crlf (two ios.BytesReplacingReader) as strip_crlf; chunking/buffer growth is property C09; the harness feeds segments longer than the initial buffer through full/half/one-byte readers so a slicing fault at growth fails the oracle',
                  'the segment hierarchy machine of ediReader is property C05; here the full reader runs over one non-group segment declaration (min 0, max unbounded)',
                  'utf8.DecodeRune as transcribed in Base/Utf8.v; rune/segment counters and error message texts are not modelled'],
-        assumptions=['cfg_ok (edi_roundtrip, edi_elem_nodes): delimiters in use and the release character are non-empty, start with pairwise distinct ASCII bytes, and none of those first bytes occurs at a later position of any of them',
-                     'segs_ok: segment name non-empty (not CR/LF-only when the segment delimiter is); without a release character no data byte starts a delimiter; with ignore_crlf no CR/LF in data or delimiters; with LF as segment delimiter no value or delimiter ends a segment with CR',
-                     'input ends with a segment delimiter (what follows the last one is dropped: DESIGN section 6 F8, property C05)'],
+        assumptions=['cfg_ok (edi_roundtrip, edi_elem_nodes, edi_full_roundtrip): the delimiters in use and the release character are non-empty, start with pairwise distinct ASCII bytes, none of those first bytes occurs at a later position of any of them (tail_clean; Example tail_clean_needed shows a configuration outside it losing a segment), and with LF as segment delimiter the release character does not end with CR',
+                     'segx_ok: >= 1 element / repetition / component (exactly one where the delimiter is absent); segment name non-empty; without a release character no data byte equals the first byte of a delimiter; a CR before the delimiter and blank lines only where the CR/LF rules eat them (LF resp. CR/LF-only segment delimiter); with LF as segment delimiter the encoded segment does not end with CR; with a CR/LF-only segment delimiter the name has a non-CR/LF byte',
+                     'the input (after ignore_crlf stripping, if configured) is edi_encode of the segments, hence ends with a segment delimiter (what follows the last one is dropped: DESIGN section 6 F8, property C05)',
+                     'delimiters starting with a non-ASCII rune are outside the theorems (the harness oracle covers them: rune-wise encoder); segment delimiter non-empty (schema minLength 1)'],
     ),
 }
